@@ -15,8 +15,9 @@
 (* checks ON THE MODEL for every list                                      *)
 (*   - the S-layer invariants of the evaluator cache along the event       *)
 (*     stream the caching evaluator MEval produces for "one instance       *)
-(*     evaluates every output of TagImpl once" (TLC invariant), the        *)
-(*     helper transcriptions against their tables (TLC invariant),         *)
+(*     evaluates every output of TagImpl once" (TLC invariant              *)
+(*     ModelCacheInv_Emit), the helper transcriptions against their        *)
+(*     tables (TLC invariant HelperModelInv),                              *)
 (*   - whether the transcribed tagger TagImpl meets the property           *)
 (*     (ValuePreserved in every environment, NoWrapperOnWrapper,           *)
 (*     RepeatedIsShared, RepeatedOpOnce): failures are design-level        *)
